@@ -24,7 +24,13 @@ func VerifHarness_C06_Underlying() {
 	under := []types.Type{types.Typ[types.String], types.Typ[types.Int], types.NewSlice(types.Typ[types.String]), types.NewMap(types.Typ[types.String], types.Typ[types.Int])}[nondetChoice("underlying", 4)]
 	_, basic := under.(*types.Basic)
 	sameType := nondetBool("same-defined-type-on-both-sides")
-	srcN := types.NewNamed(types.NewTypeName(token.NoPos, pkg, "Src", nil), under, nil)
+	// the source may also be a defined struct type (its underlying type then differs from the target's)
+	srcUnder := under
+	srcStruct := !sameType && nondetBool("source-is-a-defined-struct")
+	if srcStruct {
+		srcUnder = types.NewStruct([]*types.Var{types.NewField(token.NoPos, pkg, "F", types.Typ[types.Int], false)}, nil)
+	}
+	srcN := types.NewNamed(types.NewTypeName(token.NoPos, pkg, "Src", nil), srcUnder, nil)
 	pkg.Scope().Insert(srcN.Obj())
 	tgtN := srcN
 	if !sameType {
@@ -37,7 +43,7 @@ func VerifHarness_C06_Underlying() {
 		}
 		return constant.MakeInt64(i)
 	}
-	srcEnum, tgtEnum := basic && nondetBool("source-has-constants"), basic && nondetBool("target-has-constants")
+	srcEnum, tgtEnum := basic && !srcStruct && nondetBool("source-has-constants"), basic && nondetBool("target-has-constants")
 	if srcEnum {
 		pkg.Scope().Insert(types.NewConst(token.NoPos, pkg, "SrcA", srcN, val(0)))
 	}
@@ -68,9 +74,9 @@ func VerifHarness_C06_Underlying() {
 	conf := &config.Method{Common: config.Common{UseUnderlyingTypeMethods: setting, Enum: enumConfig(enumEnabled)}, Fields: map[string]*config.FieldMapping{}}
 	ctx := &MethodContext{Namer: namer.New(), Conf: conf, SeenNamed: map[string]struct{}{}, OutputPackagePath: "example.org/out",
 		HasMethod: func(_ *MethodContext, s, t types.Type) bool {
-			return (h1 && types.Identical(s, under) && types.Identical(t, tgtN)) ||
+			return (h1 && types.Identical(s, srcUnder) && types.Identical(t, tgtN)) ||
 				(h2 && types.Identical(s, srcN) && types.Identical(t, under)) ||
-				(h3 && types.Identical(s, under) && types.Identical(t, under))
+				(h3 && types.Identical(s, srcUnder) && types.Identical(t, under))
 		}}
 	b := &UseUnderlyingTypeMethods{}
 	matches := b.Matches(ctx, source, target)
@@ -94,7 +100,7 @@ func VerifHarness_C06_Underlying() {
 	}
 	wantS, wantT := source.String, target.String
 	if which == 1 || which == 3 {
-		wantS = under.String()
+		wantS = srcUnder.String()
 	}
 	if which == 2 || which == 3 {
 		wantT = under.String()
